@@ -557,6 +557,10 @@ Fixpoint c04_any_gt180 (f : nat -> R) (n : nat) : bool :=
   | S m => if Rlt_dec 180 (f m) then true else c04_any_gt180 f m
   end.
 
+(* _set_desired_longitude_range on one longitude array of n entries *)
+Definition c04_range_fix (f : nat -> R) (n : nat) (i : nat) : R :=
+  if c04_any_gt180 f n then c04_wrap180 (f i) else f i.
+
 Definition c04_sum3 (l : list c04_v3) : c04_v3 := fold_right c04_add c04_zero3 l.
 Definition c04_mean3 (l : list c04_v3) : c04_v3 := c04_scale (/ INR (length l)) (c04_sum3 l).
 
